@@ -36,7 +36,12 @@ Section DCase.
     | Ok m, Ok m0, Ok s =>
         if negb (same_data m0 s) then 2          (* contradicts C02_corrected_data *)
         else if same_all impl m && same_data m s then 0
-        else verdict (same_all impl m) (same_data m s) (same_data impl s) (dexercised m)
+        else
+          (* a known class is consulted only where today's MODEL already departs from the
+             specification; where the model satisfies it, a real response that differs from
+             both is a violation (code 4), whatever deviations exist elsewhere *)
+          verdict (same_all impl m) (same_data m s) (same_data impl s)
+                  (if same_data m s then 0 else dexercised m)
     | _, _, _ => 9
     end.
 End DCase.
